@@ -25,6 +25,9 @@ def tu_for(tracking):
     s += 'namespace vf { auto root_pos(const %s& in) { return in.position(); } }\n' % it
     s += 'namespace vf { auto root_eol(const %s& in, const position& p) { return in.end_of_line( p ); } }\n' % it
     s += 'namespace vf { auto root_lineat(const %s& in, const position& p) { return in.line_at( p ); } }\n' % it
+    if tracking == 'eager':
+        s += 'namespace vf { auto root_lineatcrlf(const InE_crlf& in, const position& p) { return in.line_at( p ); } }\n'
+        s += 'namespace vf { auto root_lineatlf(const InE_lf& in, const position& p) { return in.line_at( p ); } }\n'
     if tracking == 'lazy':
         for key, pol in (('eolcc', 'cr_crlf'), ('eollf', 'lf'), ('eolcr', 'cr'), ('eolcrlf', 'crlf')):
             s += 'namespace vf { auto root_%s(const %s& in, const position& p) { return in.end_of_line( p ); } }\n' % (key, INPUT_TYPES[('lazy', pol)])
@@ -170,6 +173,15 @@ def jobs(tier):
                        stubs=[(r'std::find<char const\*, char>\(', STD_FIND, 'opt')],
                        expect_fail_canary=('canary_exit',),
                        desc='memory_input<%s>::line_at(position) (lf_crlf): real begin_of_line and end_of_line below it' % tr))
+        # line_at() under the policies crlf and lf (Eol::ch is '\\n' for both, so the characterisation of the line start is the same)
+        if tr == 'eager':
+            for key, pol, edef in (('lineatcrlf', 'crlf', EOLSTART_CRLF), ('lineatlf', 'lf', EOLSTART_LF)):
+                out.append(Job('lineat_%s_e' % pol, grp, key, conL, ('C19', 'C03'), prelude=prelude(tr) + PRE + edef,
+                               harness=H % {'it': 'vf_' + INPUT_TYPES[('eager', pol)], 'setup': setup + ' __CPROVER_assume(g_byte0 == 0 && g_col0 == 1); vf_exc.pending = 0;', 'call': '$ENTRY(&in, &p)'},
+                               loops={(r'^bool tao::pegtl::internal::until<tao::pegtl::internal::at<tao::pegtl::internal::eolf> ?>::match<', 1, 'opt'): inv},
+                               stubs=[(r'std::find<char const\*, char>\(', STD_FIND, 'opt')],
+                               expect_fail_canary=('canary_exit',),
+                               desc='memory_input<eager, eol::%s>::line_at(position): real begin_of_line and end_of_line below it (line start characterised as: preceded by LF, no LF between it and the position; under crlf this leaves out lines that contain a lone LF before the position)' % pol))
         # end_of_line() under the policies cr_crlf and lf (same real body, other Eol::match inside eolf)
         if tr == 'eager' or tier == 'thorough':
             for key, pol, edef in (('eolcc', 'cr_crlf', EOLSTART_CC), ('eollf', 'lf', EOLSTART_LF), ('eolcr', 'cr', EOLSTART_CR), ('eolcrlf', 'crlf', EOLSTART_CRLF)):
